@@ -19,15 +19,20 @@ FAMS = {
     "ring2": dict(cls="C", members=[("big", False), ("hole", False), ("small", True)], lim=(F(1, 4), F(3, 4))),  # second hole: small cw, kept clear of the first hole
     "pair": dict(cls="D", members=[("square", False), ("far", False)], lim=(F(-1, 1), F(1, 1))),
     "triple": dict(cls="D", members=[("square", False), ("far", False), ("hole", True)], lim=(F(-3, 1), F(-2, 1))),
+    "nested": dict(cls="D", members=[("hollow", False), ("tinyring", False)], lim=(F(-1, 20), F(1, 20))),  # a frame inside the hole of a frame
     "neg": dict(cls="C", members=[("square", True), ("far", True)], lim=(F(-1, 1), F(1, 1))),  # two cw squares: an unbounded connected shape
 }
 
 
 def member(name, rev, tx=0, ty=0):
+    if name in ("hollow", "tinyring"):
+        return geom.make(name, tx, ty)
     return geom.poly(name, tx, ty, rev=rev)
 
 
 def member_region(name, rev, tx=0, ty=0):
+    if name in ("hollow", "tinyring"):
+        return geom.region_of_name(name, tx, ty)
     pts = geom.tr_pts(geom.POLY[name], tx, ty, rev=rev)
     ccw = geom._ccw(geom.POLY[name])
     return ("poly", pts, (not ccw) if rev else ccw)
